@@ -111,6 +111,21 @@ func stressCmd(out *cq.Out, seed uint64, tier string) {
 					p, msg := cq.Catch(func() {
 						if lr.Intn(3) == 0 {
 							s0 := uint64(lr.Intn(int(q) + 1))
+							if lr.Intn(3) == 0 {
+								// up to the version right after the last snapshot issued - the one being inserted right now, if any:
+								// a clean refusal, or (if the insertion got there first) a proof that verifies
+								snapsMu.Lock()
+								next := uint64(len(snaps))
+								snapsMu.Unlock()
+								ip, err := n.QueryConsistency(s0, next)
+								if err == nil {
+									ss, se := snapshotAt(&snapsMu, &snaps, s0), snapshotAt(&snapsMu, &snaps, next)
+									if ss == nil || se == nil || !ip.Verify(ss, se) {
+										why = fmt.Sprintf("the incremental proof (%d,%d) up to the version being inserted does not verify against the snapshots issued for those versions", s0, next)
+									}
+								}
+								return
+							}
 							ip, err := n.QueryConsistency(s0, q)
 							ss, se := snapshotAt(&snapsMu, &snaps, s0), snapshotAt(&snapsMu, &snaps, q)
 							if err != nil {
